@@ -20,9 +20,25 @@ class Outcome:
         self.tmpdir = None
 
 
+_FIGDIR = None
+
+
+def figure_dir():
+    """ONE directory per process: successive figure documents overwrite the same paths
+    (fig0.png, ...) with new content, as users re-running a plotting script do - so a
+    stale per-path cache in the library becomes observable."""
+    global _FIGDIR
+    if _FIGDIR is None:
+        import atexit
+        _FIGDIR = tempfile.mkdtemp(prefix="rtfmon-fig-")
+        atexit.register(shutil.rmtree, _FIGDIR, True)
+    return _FIGDIR
+
+
 def build_and_encode(spec, keep_tmp=False) -> Outcome:
     o = Outcome()
-    td = tempfile.mkdtemp(prefix="rtfmon-fig-") if spec.get("kind") == "figure" else None
+    td = figure_dir() if spec.get("kind") == "figure" else None
+    keep_tmp = True
     o.tmpdir = td
     try:
         try:
